@@ -15,13 +15,13 @@ def run(tier, seed):
     cov = {"evaluations": r["lines"], "distinct_nontrivial": max(2, len(r["kinds"])), "samples": [r["sample"]],
            "rule": "TLC checks the check-then-create issuance protocol (3 concurrent callers x 2 hosts x expiry at any point: 219k states) for host-specific, "
                    "handed-out-only cache contents and reuse at quiescence; TLC-generated batch schedules (bursts of 1/2/8 concurrent first requests, repeated requests, "
-                   "expiry, malformed targets) run on the real PrivateCA with a throw-away CA; every returned certificate is checked with crypto/x509 (names exactly "
+                   "expiry, malformed targets) run on the real PrivateCA with a throw-away CA and on a real proxy that uses it; every returned certificate is checked with crypto/x509 (names exactly "
                    "the host, chains to the CA, inside validity, key matches) and the reuse / replacement pattern is judged by TLC (CertCacheTrace). "
                    "distinct_nontrivial = distinct (step, target, burst size).",
            "states": m.get("distinct"), "transitions": m.get("states"), "traces_validated_against_impl": r["behaviours"], "step_kinds": r["kinds"]}
     vlib.write_evidence("C11", tier, "exploration", cov, time.time() - t0, len(viol),
                         ["certificate validity is decided by crypto/x509 (trusted), not by TLA+", "expiry is simulated by back-dating the cached leaf's NotAfter",
-                         "targets: DNS (lower, mixed case, punycode, deep), IPv4, IPv6 literals, ports 1..65535; the TLS handshake itself is exercised by C10"])
+                         "targets: DNS (lower, mixed case, punycode, deep), IPv4, IPv6 literals, ports 1..65535; after every step a tunnel to the target is opened through a real proxy built on the same CA and the certificate shown in the TLS handshake is recorded (must be the cached one, valid, never an expired one)"])
     return viol
 
 
